@@ -25,7 +25,7 @@ reg("u_utf8::three_chars_offsets", unwind=6, family="U", states=1, transitions=S
     bounds="all triples of Unicode scalar values", timeout_s=(900, 1800),
     functions=["charwise::iter::CharWithEndOffsetIterator::next"])
 reg("u_map::new_bijective", unwind=7, family="U", states=1, transitions=2 ** 32,
-    bounds="frequency tables of <= 4 entries with arbitrary u32 frequencies; any char for the out-of-table probe",
+    bounds="frequency tables of <= 3 entries with arbitrary u32 frequencies; any char for the out-of-table probe",
     timeout_s=(900, 1800), functions=["charwise::mapper::CodeMapper::{new,get,alphabet_size}"])
 
 # ---- U-ser ----------------------------------------------------------------------------------
